@@ -1,6 +1,149 @@
-//! (stub) modes of this area are added here; see main.rs for the calling convention.
-use crate::Args;
+//! Request-parser modes (C01, C03, C04, C05, C06): drives the real `request::Parser` with the
+//! same schedule interpreter as coq/Extract/RunsReq.v.
+use crate::proto::config;
+use crate::{arg, argn, bytes, nums, Args};
+use fastcgi_server::cgi::VarName;
+use fastcgi_server::parser::{self, request};
 
-pub fn dispatch(_mode: &str, _a: &Args) -> Option<Args> {
-    None
+pub fn dispatch(mode: &str, a: &Args) -> Option<Args> {
+    Some(match mode {
+        "req_run" => req_run(a),
+        "bufsize" => bufsize(a),
+        "lossy" => lossy(a),
+        _ => return None,
+    })
+}
+
+pub fn perr_code(e: &parser::Error) -> Vec<u128> {
+    use parser::Error::*;
+    match e {
+        Paniced => vec![1],
+        StuckOnInput => vec![2],
+        Interrupted => vec![3],
+        UnknownVersion(v) => vec![4, u128::from(*v)],
+        InvalidRequestLen(l) => vec![5, u128::from(*l)],
+        NullRequest => vec![6],
+        AbortRequest => vec![7],
+        Protocol(_) => vec![8],
+        _ => vec![9],
+    }
+}
+
+/// canonical observation of a parsed request: [id, role, flags, n] then sorted (key, value) pairs.
+/// Also asserts that every key is found again through a lower-cased spelling (C01/C19).
+pub fn req_obs(r: &parser::Request) -> Args {
+    let mut env: Vec<(Vec<u8>, Vec<u8>)> =
+        r.env_iter().map(|(k, v)| (k.as_ref().as_bytes().to_vec(), v.to_vec())).collect();
+    env.sort();
+    assert_eq!(env.len(), r.env_len());
+    for (k, v) in &env {
+        let ks = std::str::from_utf8(k).expect("keys are strings");
+        let lower = ks.to_ascii_lowercase();
+        assert_eq!(r.get_var(VarName::new(&lower)), Some(&v[..]), "case-insensitive lookup failed");
+        assert!(r.contains_var(VarName::new(ks)));
+    }
+    let mut out = vec![vec![
+        u128::from(r.request_id.get()),
+        u128::from(u16::from(r.role)),
+        u128::from(u8::from(r.flags)),
+        env.len() as u128,
+    ]];
+    for (k, v) in env {
+        out.push(nums(&k));
+        out.push(nums(&v));
+    }
+    out
+}
+
+/// Same schedule interpreter as `feed` in RunsReq.v.  Returns (done, unfed, output).
+pub fn feed(p: &mut request::Parser, wire: &[u8], sched: &[u128], out: &mut Vec<u8>) -> (bool, usize) {
+    let mut pos = 0usize;
+    let mut si = 0usize;
+    loop {
+        let space = p.input_buffer().len();
+        let avail = space.min(wire.len() - pos);
+        let n = if si < sched.len() { (sched[si] as usize).min(avail) } else { avail };
+        if si >= sched.len() && n == 0 {
+            return (false, wire.len() - pos);
+        }
+        p.input_buffer()[..n].copy_from_slice(&wire[pos..pos + n]);
+        pos += n;
+        si += 1;
+        let y = p.parse(n);
+        out.extend_from_slice(y.output);
+        if y.done {
+            return (true, wire.len() - pos);
+        }
+    }
+}
+
+fn req_run(a: &Args) -> Args {
+    let cfg = config(argn(a, 0) as usize, argn(a, 1) as usize);
+    let wire = bytes(&arg(a, 2));
+    let sched = arg(a, 3);
+    let mut p = request::Parser::new(&cfg);
+    let mut out = Vec::new();
+    let (done, unfed) = feed(&mut p, &wire, &sched, &mut out);
+    let space = p.input_buffer().len();
+    let mut res = vec![vec![u128::from(done), unfed as u128, space as u128]];
+    let mut again = Vec::new();
+    if done {
+        let mut q = p.clone();
+        let y1 = q.parse(0);
+        let (d1, o1) = (y1.done, y1.output.len());
+        let y2 = q.parse(0);
+        let (d2, o2) = (y2.done, y2.output.len());
+        again.push(vec![u128::from(d1), o1 as u128, u128::from(d2), o2 as u128, q.input_buffer().len() as u128]);
+        // the result after the extra calls must be the same as before them
+        let r1 = format!("{:?}", q.into_request().map_err(|e| perr_code(&e)));
+        let r0 = format!("{:?}", p.clone().into_request().map_err(|e| perr_code(&e)));
+        assert_eq!(r0, r1, "parse() after done changed the result");
+    }
+    match p.into_request() {
+        Ok((r, left)) => {
+            res.push(vec![1]);
+            res.extend(req_obs(&r));
+            res.push(nums(&left));
+        },
+        Err(e) => {
+            let mut v = vec![2];
+            v.extend(perr_code(&e));
+            res.push(v);
+        },
+    }
+    res.push(nums(&out));
+    res.extend(again);
+    res
+}
+
+fn bufsize(a: &Args) -> Args {
+    let cfg = config(argn(a, 0) as usize, 1);
+    let mut p = request::Parser::new(&cfg);
+    vec![vec![p.input_buffer().len() as u128]]
+}
+
+/// the key normalisation of make_cgivar, observed through the public API: a one-pair request
+fn lossy(a: &Args) -> Args {
+    let name = bytes(&arg(a, 0));
+    let cfg = config(name.len() + 64, 1);
+    let mut wire = fastcgi_server::protocol::body::BeginRequest {
+        role: fastcgi_server::protocol::Role::Responder,
+        flags: 0.into(),
+    }.to_record(1).to_vec();
+    let mut body = Vec::new();
+    fastcgi_server::protocol::nv::write((&name, b"v"), &mut body).expect("nv write");
+    for chunk in [&body[..], &[][..]] {
+        let mut h = fastcgi_server::protocol::RecordHeader::new(fastcgi_server::protocol::RecordType::Params, 1);
+        h.content_length = chunk.len() as u16;
+        wire.extend_from_slice(&h.to_bytes());
+        wire.extend_from_slice(chunk);
+    }
+    let mut p = request::Parser::new(&cfg);
+    let mut out = Vec::new();
+    let (done, _) = feed(&mut p, &wire, &[], &mut out);
+    assert!(done);
+    let (r, _) = p.into_request().expect("request");
+    let keys: Vec<Vec<u8>> = r.env_iter().map(|(k, _)| k.as_ref().as_bytes().to_vec()).collect();
+    assert_eq!(keys.len(), 1);
+    vec![nums(&keys[0])]
 }
